@@ -255,6 +255,8 @@ pub fn def(ctx: &Ctx) -> PropertyDef {
         mk("await/delete;delete unawaited;await both", vec![Op::Put { k: 1, w: Some(2), ttl_ms: None }], vec![vec![Op::Delete { k: 1 }, Op::Delete { k: 1 }, Op::Await { call: 1 }, Op::Await { call: 0 }]]),
         mk("await/upsert-weight;await || {tick} sweeping k", vec![Op::Put { k: 1, w: Some(2), ttl_ms: Some(1000) }, Op::Advance { ms: 3000 }], vec![vec![Op::Upsert { k: 1, value: true, w: Some(3), ttl_ms: None, remove_ttl: false }, Op::Await { call: 0 }], vec![Op::Tick]]),
         mk("await/evicting-put;await || upsert-weight(a);await", vec![Op::Put { k: 1, w: Some(6), ttl_ms: None }, Op::Put { k: 2, w: Some(4), ttl_ms: None }], vec![vec![Op::Put { k: 3, w: Some(7), ttl_ms: None }, Op::Await { call: 0 }], vec![Op::Upsert { k: 1, value: true, w: Some(5), ttl_ms: None, remove_ttl: false }, Op::Await { call: 0 }]]),
+        // an acknowledgement handed out while the cache shuts down resolves too
+        mk("await/shutdown || put(b);await", vec![Op::Put { k: 1, w: Some(2), ttl_ms: None }], vec![vec![Op::Shutdown], vec![Op::Put { k: 2, w: Some(2), ttl_ms: None }, Op::Await { call: 0 }]]),
         mk("await/delete;await;total_weight", vec![Op::Put { k: 1, w: Some(2), ttl_ms: None }, Op::Put { k: 2, w: Some(3), ttl_ms: None }], vec![vec![Op::Delete { k: 1 }, Op::Await { call: 0 }, Op::TotalWeight]]),
         mk("await/delete;await;total_weight /ttl", vec![Op::Put { k: 1, w: Some(2), ttl_ms: Some(5000) }, Op::Put { k: 2, w: Some(3), ttl_ms: None }], vec![vec![Op::Delete { k: 1 }, Op::Await { call: 0 }, Op::TotalWeight]]),
         // the status an acknowledgement resolves to is the command's real outcome: a duplicate queued behind its twin
